@@ -976,7 +976,12 @@ def fix_normals_cases(run, tag, V, F, flips_iter, single_body):
         execute(run, make_case("fix_normals", tag, V, F, flip=flip, route=route, cached=bool((i // 3) % 2)),
                 nontrivial=len(flip) > 0)
         if i % 4 == 1 and len(flip) > 0:
-            execute(run, make_case("fix_normals", tag, V, F, flip=flip, route=route, cached=bool((i // 3) % 2), scale=2e-4),
+            # small units: the sign of a body's volume does not depend on the unit, an absolute
+            # threshold anywhere between 1e-8 and 1e-16 does (unit cube volumes 8e-12, 1e-15, 2.7e-17).
+            # Not smaller: below an edge of ~1e-6 the cross product of a triangle falls under
+            # tol.zero = 1e-13 and the library documents such faces as degenerate (zero normal)
+            sc = (2e-4, 1e-5, 3e-6)[(i // 4) % 3]
+            execute(run, make_case("fix_normals", tag, V, F, flip=flip, route=route, cached=bool((i // 3) % 2), scale=sc),
                     nontrivial=True)
 
 
